@@ -3,6 +3,7 @@ from mirlib import *
 import layout_rules
 import packet_rules
 import codec_rules
+import width_rules
 import page_rules
 import cache_rules
 
@@ -37,6 +38,8 @@ def run(ctx):
         packet_rules.stream_loop_shape(ctx, prog, "R4")
         codec_rules.extract_window(ctx, prog, "R5")
         codec_rules.append_shape(ctx, prog, "R5")
+        codec_rules.stored_form(ctx, prog, "R5")
+        width_rules.width_formula(ctx, prog, "R5")
         page_rules.formulas(ctx, prog, "R6", side="reader")
         page_rules.cursor_writers(ctx, prog, "R6", side="reader")
         cache_rules.serve_only_verified(ctx, prog, cache_rules.PR, rule="R6")
